@@ -928,7 +928,7 @@ func acyclicCase(rng *vf.RNG, idx int) (*node, string) {
 
 // sizeEdge: values whose encoding sits at the 1 MiB limit (±).
 func sizeEdge(rng *vf.RNG, idx int) *node {
-	delta := []int{-1, 0, 1, 2, -300, 7}[idx%6]
+	delta := []int{-1, 0, 1, -2, 2, -40}[idx%6]
 	target := sizeLimit + delta
 	if idx%2 == 0 { // single byte array: 1 type + 5 varuint + L
 		L := target - 6
@@ -1817,6 +1817,8 @@ func main() {
 	} {
 		r.Require(c, 3)
 	}
+	r.Require("within_limits", 1000)
+	r.Require("bytes_decoded_roundtrip_ok", 1000)
 	if len(keyCounts) > 0 {
 		r.Extra("violation_keys", keyCounts)
 	}
